@@ -123,11 +123,12 @@ MANIFEST = {
                   "model for all arguments (an edited guard / flag breaks lake build on a named theorem), and (b) by "
                   "differential execution of random two-file histories with copies of every kind incl. data frames "
                   "(HDF5-level dumps of both files compared).",
-    "level_note": "Trusted: Lean kernel; standard axioms; the translator harness/extract/copyshape.py and the "
+    "level_note": "Trusted: Lean kernel; standard axioms; the translators harness/extract/copyshape.py, handlesites.py and the "
                   "correspondence harness; H5Ocopy semantics are modelled, not verified; dataset contents are checked by "
                   "the implementation-side oracle only; that nixio constructs the handles of link lists, references, "
                   "positions / extents and feature data with the owning block as parent is checked by the oracle (copies made "
-                  "with handles of every provenance), not modelled. Partial: with regenerated ids the link lists of the copy keep the "
+                  "with handles of every provenance) and by the correspondence's source_of probes, read off the "
+                  "constructor calls (HandleSite.owned), not proved. Partial: with regenerated ids the link lists of the copy keep the "
                   "source's ids as entry names (open finding C20-fresh-ids-stale-link-names: id_named_links_kept + "
                   "counterexample); history-level independence is proved "
                   "for histories of calls on either side whose entity arguments lie on that side (source side: destination "
@@ -639,12 +640,12 @@ def correspondence(ctx):
         for k, op, m, i in compare20(ops, outs, model):
             disagreements.append(Disagreement({"corpus": case.get("name", ci), "index": k, "op": op}, m, i))
         total += len(ops)
-    # quick tier: the generated histories get ~100 s of wall time (at least 10 of them are run); a tree whose anchored
-    # sources changed doubles the number of histories, not the time
-    t_end = time.time() + 100 if ctx.quick() else None
+    # the generated histories get ~100 s of wall time in the quick tier, ~600 s in the thorough tier (at least 10 of
+    # them are run); a tree whose anchored sources changed doubles the number of histories, not the time
+    t_end = time.time() + (100 if ctx.quick() else 600)        # (thorough: ~10 min of histories, ~7 min of oracle)
     ran = 0
     for h in range(n_hist):
-        if t_end is not None and h >= 10 and time.time() > t_end:
+        if h >= 10 and time.time() > t_end:
             break
         ran += 1
         rng = random.Random("%s/%d/%d" % (PROP, ctx.seed, h))
@@ -2204,7 +2205,7 @@ def oracle(ctx, broken, hints):
     # stops at the first few distinct failures: one concrete failing input is what is asked for
     n = ctx.budget(6, 40) * (4 if broken else 1)
     trials = ctx.budget(14, 24)
-    limit = (170 if broken else 60) if ctx.quick() else (1500 if broken else 540)
+    limit = (170 if broken else 60) if ctx.quick() else (1500 if broken else 420)
     t_end = time.time() + limit
     failures = []
     evals = 0
